@@ -37,6 +37,10 @@ type vNetCfg struct {
 	KeepFixLow  bool        // keep the fix-low-peers loop
 	AutoRefresh bool
 	PrivateAddr bool // give peers RFC1918 addresses instead of public ones
+	// OptsFn, if set, supplies options that need the fake host (e.g. a diversity filter).
+	OptsFn func(n *vNet) []Option
+	// AddrFn, if set, overrides the address of simulated peer i.
+	AddrFn func(i int) ma.Multiaddr
 }
 
 // vNet is a DHT wired to a simulated network.
@@ -68,7 +72,7 @@ func vPeerAddr(i int, private bool) ma.Multiaddr {
 	if private {
 		return ma.StringCast(fmt.Sprintf("/ip4/10.%d.%d.1/tcp/4001", (i/250)%250, i%250))
 	}
-	return ma.StringCast(fmt.Sprintf("/ip4/%d.%d.0.1/tcp/4001", 11+(i/250)%200, i%250))
+	return ma.StringCast(fmt.Sprintf("/ip4/%d.%d.0.1/tcp/4001", 130+(i/250)%39, i%250)) // 130-168.x: public, no legacy class-A group
 }
 
 // vNewNet builds the simulation and the DHT. Call inside a bubble; call Close before leaving it.
@@ -82,7 +86,11 @@ func vNewNet(t *testing.T, c *vh.Case, cfg vNetCfg) *vNet {
 		id := vsim.PeerID(fmt.Sprintf("n%d", c.Idx), i)
 		n.IDs = append(n.IDs, id)
 		n.idx[id] = i
-		n.S.Add(&vsim.SimPeer{ID: id, Addrs: []ma.Multiaddr{vPeerAddr(i, cfg.PrivateAddr)}})
+		addr := vPeerAddr(i, cfg.PrivateAddr)
+		if cfg.AddrFn != nil {
+			addr = cfg.AddrFn(i)
+		}
+		n.S.Add(&vsim.SimPeer{ID: id, Addrs: []ma.Multiaddr{addr}})
 	}
 	switch cfg.Knowledge {
 	case "kbucket":
@@ -116,6 +124,9 @@ func vNewNet(t *testing.T, c *vh.Case, cfg vNetCfg) *vNet {
 		opts = append(opts, Validator(cfg.Validator))
 	}
 	opts = append(opts, cfg.Opts...)
+	if cfg.OptsFn != nil {
+		opts = append(opts, cfg.OptsFn(n)...)
+	}
 	d, err := New(n.H, opts...)
 	if err != nil {
 		panic(fmt.Sprintf("vNewNet: dht.New: %v", err))
